@@ -43,7 +43,7 @@ theorem opAdd_dead_any (run : ProbeRunner) (p : Path) (e : Ent) (ids : List Comp
     opAdd run p e ids vals [] w = .panic .deadEntity w := by
   have hcore := addCore_dead w hl e hd ids []
   cases p <;>
-  simp [opAdd, preCheck, preCheckMap, preCheckTyped, M.forM', bind, M.bind, M.get, M.assert, hd,
+  simp [opAdd, preCheck_nil, bind, M.bind, M.get, M.assert, hd,
     hcore, pure, M.pure]
 
 /-- **rejection**: `Remove` on a dead handle, through any path -/
